@@ -71,11 +71,10 @@ def aperture_rules(repo, res):
     SP.returns_match(repo, res, 'SPEC', f'{PA}._bbox',
                      ['[BoundingBox.from_float(x0, x1, y0, y1) for x0, x1, y0, y1 in zip(xmin, xmax, ymin, ymax, strict=True)]'],
                      'the minimal integer box of each position')
-    g = repo.method(PA, '_centered_edges')
-    for name, spec in (('xmin', 'bbox.ixmin - 0.5 - position[0]'), ('xmax', 'bbox.ixmax - 0.5 - position[0]'),
-                       ('ymin', 'bbox.iymin - 0.5 - position[1]'), ('ymax', 'bbox.iymax - 0.5 - position[1]')):
-        expect_stmt(res, 'SPEC', g, f'{name} = ' + nf_text(spec), f'{name}: pixel edge of the box recentred on the aperture (= extent - position)')
-    expect_stmt(res, 'SPEC', g, nf_text('edges.append((xmin, xmax, ymin, ymax))'), 'edges handed on as (xmin, xmax, ymin, ymax)')
+    SP.returns_match(repo, res, 'SPEC', f'{PA}._centered_edges',
+                     ['[(bbox.ixmin - 0.5 - position[0], bbox.ixmax - 0.5 - position[0], bbox.iymin - 0.5 - position[1], '
+                      'bbox.iymax - 0.5 - position[1]) for position, bbox in zip(self._positions, self._bbox, strict=True)]'],
+                     'per position the pixel edges (xmin, xmax, ymin, ymax) of its box recentred on the aperture (= extent - position)')
     # method translation table, decided by finite-domain abstract interpretation of the function (sa/consteval.py):
     # for every (mode, rectangle) the returned (use_exact, subpixels) pair, `subpixels` kept symbolic
     from .. import consteval as CE
